@@ -31,6 +31,27 @@ def layout_family(tier='quick'):
     return out
 
 
+def round6_wellformed():
+    """well-formed programs added after the sixth seeding round (compile path: C11, C12, C13, C14, C16)"""
+    A = 'packet Alpha {\n    u8 a,\n}\n'
+    out = []
+    out.append(T('w:empty_shared', 'root packet Root {\n    u8 k,\n    u8 j,\n    match k as First {\n        1 : Heartbeat,\n        2 : Alpha,\n    },\n    match j as Second {\n        1 : Heartbeat,\n    },\n}\n\npacket Heartbeat {\n}\n\n' + A))
+    out.append(T('w:empty_above', 'packet Body {\n}\n\nroot packet Root {\n    Body,\n    Body again,\n    repeat Body more,\n}\n'))
+    out.append(T('w:empty_nested_twice', 'packet Leaf {\n}\n\npacket Mid {\n    Leaf l,\n}\n\nroot packet Root {\n    Mid m,\n    Leaf l,\n    Mid m2,\n}\n'))
+    out.append(T('w:diamond', 'root packet Root {\n    Left l,\n    Right r,\n}\n\npacket Left {\n    Alpha a,\n}\n\npacket Right {\n    Alpha a,\n}\n\n' + A))
+    out.append(T('w:u64_keys', 'root packet Root {\n    u64 k,\n    match k as Body {\n        9223372036854775807 : Alpha,\n        9223372036854775808 : Beta,\n        [18446744073709551615, 18446744073709551614] : Alpha,\n    },\n}\n\n' + A + '\npacket Beta {\n    u16 b,\n}\n'))
+    out.append(T('w:u64_keys_meta', 'MetaData M {\n    u64 Key `k`,\n}\n\nroot packet Root {\n    Key,\n    match Key as Body {\n        18446744073709551615 : Alpha,\n        1 : Alpha,\n    },\n}\n\n' + A))
+    out.append(T('w:max_keys_each_width', 'root packet Root {\n    u8 a,\n    u16 b,\n    u32 c,\n    i8 d,\n    match a as Pa {\n        255 : Alpha,\n        0 : Alpha,\n    },\n    match b as Pb {\n        65535 : Alpha,\n    },\n    match c as Pc {\n        4294967295 : Alpha,\n    },\n    match d as Pd {\n        127 : Alpha,\n    },\n}\n\n' + A))
+    out.append(T('w:keyword_names', 'options {\n    GoPackage = "msg";\n    JavaPackage = "com.x";\n}\n\nroot packet Type {\n    u8 k,\n    match k as body {\n        1 : Match,\n        2 : Lambda,\n        3 : Struct,\n    },\n    Static s,\n}\n\npacket Match {\n    u8 a,\n}\n\npacket Lambda {\n    u8 b,\n}\n\npacket Struct {\n    u8 c,\n}\n\npacket Static {\n    u8 d,\n}\n'))
+    out.append(T('w:keyword_names2', 'root packet Lib {\n    Pass p,\n    Mod m,\n    Global g,\n    repeat Yield ys,\n}\n\npacket Pass {\n    u8 a,\n}\n\npacket Mod {\n    u8 b,\n}\n\npacket Global {\n    u8 c,\n}\n\npacket Yield {\n    u8 d,\n}\n'))
+    out.append(T('w:match_key_objfield_below', 'root packet Root {\n    Other o,\n    match o as b {\n        1 : Alpha,\n    },\n}\n\npacket Other {\n    u8 v,\n}\n\n' + A, wellformed=False))
+    out.append(T('w:match_key_objfield_undeclared', 'root packet Root {\n    Missing o,\n    match o as b {\n        1 : Alpha,\n    },\n}\n\n' + A, wellformed=False))
+    out.append(T('w:match_key_inline', 'root packet Root {\n    Sub {\n        u8 x,\n    },\n    match Sub as b {\n        1 : Alpha,\n    },\n}\n\n' + A, wellformed=False))
+    out.append(T('w:match_key_repeat', 'root packet Root {\n    repeat u8 ks,\n    match ks as b {\n        1 : Alpha,\n    },\n}\n\n' + A, wellformed=False))
+    out.append(T('w:rootless_two', 'packet Alpha {\n    u8 a,\n}\n\npacket Beta {\n    u16 b,\n}\n', wellformed=False))
+    return out
+
+
 def round6_texts():
     """texts added after the sixth seeding round (used by the formatter properties)"""
     out = []
